@@ -303,6 +303,11 @@ func (f *sparseFile) Seek(offset int64, whence int) (int64, error) {
 func m4Reader(toks []string, file []byte) io.ReadSeeker {
 	g := cvField(toks, "gap")
 	if g == "" {
+		if v := caseHash(string(file)) >> 20; v%4 == 1 {
+			return &shortSeeker{bytes.NewReader(file), 100} // short reads are legal
+		} else if v%4 == 2 {
+			return &shortSeeker{bytes.NewReader(file), 7}
+		}
 		return bytes.NewReader(file)
 	}
 	p := strings.Split(g, ":")
